@@ -1,6 +1,8 @@
 (* C09 — property theorems only.  Each is closed by [exact] of a lemma of C09/Proofs.v. *)
 From Coq Require Import List String NArith Bool.
 From Verif Require Import Base.Util Writer.Model C09.Check C09.Proofs.
+(* the target-client harness of this check (h_c09t) evaluates its cases with C09.TCheck *)
+From Verif Require C09.TCheck.
 Import ListNotations.
 Local Open Scope string_scope.
 Local Open Scope list_scope.
